@@ -7,6 +7,7 @@ import (
 	"path/filepath"
 	"sort"
 	"strings"
+	"sync/atomic"
 	"syscall"
 	"testing"
 	"time"
@@ -358,6 +359,7 @@ type ptyScript struct {
 	typed  string              // what the user types (CR = Enter); Ctrl-D is appended
 	dbs    []string            // databases that must exist afterwards
 	tables map[string][]string // "db.table" -> values of column c in order
+	paste  bool                // the text arrives as one paste: a terminal that was asked for bracketed paste wraps it in ESC[200~ / ESC[201~
 }
 
 // runOnPty feeds the script to the real runTerminal over a pseudo-terminal.
@@ -389,12 +391,24 @@ func runOnPty(sc ptyScript, chunk int) (problem string) {
 	}
 	// drain what the console echoes, or the pty buffer fills up and the console blocks
 	prompt := make(chan struct{})
+	var bracketed atomic.Bool // the console asked the terminal for bracketed paste (ESC[?2004h)
 	go func() {
 		buf := make([]byte, 4096)
 		first := true
+		tail := ""
 		for {
-			if _, err := master.Read(buf); err != nil {
+			n, err := master.Read(buf)
+			if err != nil {
 				return
+			}
+			out := tail + string(buf[:n])
+			if i, j := strings.LastIndex(out, "\x1b[?2004h"), strings.LastIndex(out, "\x1b[?2004l"); i >= 0 || j >= 0 {
+				bracketed.Store(i > j)
+			}
+			if len(out) > 8 {
+				tail = out[len(out)-8:]
+			} else {
+				tail = out
 			}
 			if first {
 				first = false
@@ -413,7 +427,11 @@ func runOnPty(sc ptyScript, chunk int) (problem string) {
 		restore()
 		panic(lib.HarnessError{Msg: "the console printed no prompt on the pseudo-terminal"})
 	}
-	input := []byte(sc.typed + "\x04")
+	text := sc.typed
+	if sc.paste && bracketed.Load() {
+		text = "\x1b[200~" + text + "\x1b[201~"
+	}
+	input := []byte(text + "\x04")
 	for len(input) > 0 {
 		n := chunk
 		if n <= 0 || n > len(input) {
@@ -492,16 +510,22 @@ func c20Pty(env *lib.Env, rep *lib.Report) {
 	scripts := []ptyScript{
 		{"failing statement in the middle of a line",
 			"CREATE DATABASE x1; CREATE DATABASE x1; CREATE DATABASE x2;\r",
-			[]string{"x1", "x2"}, nil},
+			[]string{"x1", "x2"}, nil, false},
 		{"failing statements between good ones, literals with semicolons",
 			"CREATE DATABASE x1;\rUSE x1; CREATE TABLE t (c varchar(255));\rINSERT INTO t VALUES ('a;b'); INSERT INTO t VALUES ('bad', 1); INSERT INTO nosuch VALUES ('n'); INSERT INTO t VALUES ('c ; d');\rINSERT INTO t\rVALUES ('e');\r",
-			[]string{"x1"}, map[string][]string{"x1.t": {"a;b", "c ; d", "e"}}},
+			[]string{"x1"}, map[string][]string{"x1.t": {"a;b", "c ; d", "e"}}, false},
 		{"syntax error first, then good statements on the same line",
 			"SELEKT 1; CREATE DATABASE y1; USE y1; CREATE TABLE t (c varchar(255)); INSERT INTO t VALUES ('one'), ('two');\r",
-			[]string{"y1"}, map[string][]string{"y1.t": {"one", "two"}}},
+			[]string{"y1"}, map[string][]string{"y1.t": {"one", "two"}}, false},
 		{"two databases, switching back and forth, multi-line statements",
 			"CREATE DATABASE a1; CREATE DATABASE b1;\rUSE a1;\rCREATE TABLE t\r(c varchar(255));\rINSERT INTO t VALUES ('in a');\rUSE b1; CREATE TABLE t (c varchar(255)); INSERT INTO t VALUES ('in b'); USE a1; INSERT INTO t VALUES ('again a');\r",
-			[]string{"a1", "b1"}, map[string][]string{"a1.t": {"in a", "again a"}, "b1.t": {"in b"}}},
+			[]string{"a1", "b1"}, map[string][]string{"a1.t": {"in a", "again a"}, "b1.t": {"in b"}}, false},
+	}
+	// the same scripts once more, arriving as a paste (what a terminal does with it depends on what the console
+	// asked for)
+	for _, sc := range scripts[:2] {
+		sc.paste, sc.name = true, sc.name+" (pasted)"
+		scripts = append(scripts, sc)
 	}
 	for _, sc := range scripts {
 		for _, chunk := range []int{0, 1, 7} {
